@@ -109,9 +109,12 @@ type Case struct {
 	// expr / pipe family: the spacing the source is written with (see spellings); the tree, and
 	// so the expected value in every position, does not depend on it
 	Spell string `json:"spell,omitempty"`
-	Wrap  string `json:"wrap,omitempty"`
-	WrapX string `json:"wrapx,omitempty"`
-	Why   string `json:"why,omitempty"` // err family: unknown | arity | conversion | returned
+	// expr family: engine history - after the first check the same engine evaluates this many
+	// other distinct expressions, then the case is checked a second time
+	History int    `json:"history,omitempty"`
+	Wrap    string `json:"wrap,omitempty"`
+	WrapX   string `json:"wrapx,omitempty"`
+	Why     string `json:"why,omitempty"` // err family: unknown | arity | conversion | returned
 }
 
 // Bind is one `v-for="Var in List"` scope; List is a root variable (see scopeLists).
@@ -406,15 +409,24 @@ func check(c Case) error {
 		}
 		its := c.iterations(env)
 		eng := newEngine(dataOf(c.Env, env), c.Text())
-		for j, it := range its {
-			if err := checkValue(c, it.env, eng, pos, j, its); err != nil {
-				if it.note != "" {
-					return fmt.Errorf("%v;%s", err, it.note)
+		pass := func(when string) error {
+			for j, it := range its {
+				if err := checkValue(c, it.env, eng, pos, j, its); err != nil {
+					return fmt.Errorf("%v;%s%s", err, it.note, when)
 				}
-				return err
 			}
+			return nil
 		}
-		return nil
+		if err := pass(""); err != nil || c.History == 0 {
+			return err
+		}
+		// engine history: the same engine evaluates c.History further distinct expressions, then
+		// the case is checked again - the same text must keep meaning the same
+		if err := warmUp(eng, env, c.Env, c.History); err != nil {
+			return err
+		}
+		eng.cache = nil
+		return pass(fmt.Sprintf(" [second evaluation, after %d other distinct expressions on the same engine]", c.History))
 	case "pipe":
 		if len(pos) == 0 {
 			pos = pipePos
@@ -633,6 +645,39 @@ func checkValue(c Case, env map[string]any, eng *engine, pos []string, idx int, 
 			} else if strings.TrimSpace(seen[firstText].text) != strings.TrimSpace(o.text) {
 				return fmt.Errorf("`%s` (env %d): position %s shows %q but position %s shows %q", src, c.Env, firstText, seen[firstText].text, p, o.text)
 			}
+		}
+	}
+	return nil
+}
+
+// warmUp renders one page with n distinct expressions v + 0 … v + (n-1) and verifies it.
+func warmUp(eng *engine, env map[string]any, envID, n int) error {
+	v := "a"
+	if envID == structEnv {
+		v = "total"
+	}
+	base, ok := env[v].(int)
+	if !ok {
+		return fmt.Errorf("CHECK-BUG: warm-up variable %s is not an int", v)
+	}
+	var sb strings.Builder
+	for k := 0; k < n; k++ {
+		fmt.Fprintf(&sb, "<em>{{ %s + %d }}</em>", v, k)
+	}
+	open, close, idx, cnt := eng.open, eng.close, eng.idx, eng.n
+	eng.open, eng.close, eng.idx, eng.n = "", "", 0, 1
+	defer func() { eng.open, eng.close, eng.idx, eng.n = open, close, idx, cnt }()
+	r := eng.renderParsed(sb.String())
+	if r.err != nil || r.perr != nil {
+		return fmt.Errorf("a page with %d expressions %s + k failed to render: %v %v", n, v, r.err, r.perr)
+	}
+	ems := hx.Find(r.ns, func(x *hx.N) bool { return x.Tag == "em" })
+	if len(ems) != n {
+		return fmt.Errorf("a page with %d expressions %s + k rendered %d of them", n, v, len(ems))
+	}
+	for k, em := range ems {
+		if got := hx.TextOf(em.Kids, ""); got != fmt.Sprint(base+k) {
+			return fmt.Errorf("`%s + %d` printed %q on a page with %d expressions, conventional evaluation gives %d", v, k, got, n, base+k)
 		}
 	}
 	return nil
@@ -857,6 +902,9 @@ func TestProp(t *testing.T) {
 	for i, c := range enum {
 		if i%shards != shard {
 			continue
+		}
+		if c.Fam == "expr" && i%97 < run.Pick(1, 3) {
+			c.History = 300 // engine history: more distinct expressions than any bounded program cache of a few hundred entries
 		}
 		nt, cls := classify(c)
 		if !run.Each(rec, "enum", c, nt, cls, check) {
